@@ -283,3 +283,58 @@ func stableFreeVar(fn *ssa.Function, idx int) bool {
 	}
 	return false
 }
+
+// unescapedAlloc: a heap-allocated struct variable whose address is used only to read and write its own fields (and
+// finally returned): no callee can reach it, so its fields survive calls with unknown effects.
+func unescapedAlloc(al *ssa.Alloc) bool {
+	refs := al.Referrers()
+	if refs == nil {
+		return true
+	}
+	var interiorOK func(v ssa.Value, depth int) bool
+	interiorOK = func(v ssa.Value, depth int) bool {
+		if depth > 6 {
+			return false
+		}
+		rs := v.Referrers()
+		if rs == nil {
+			return true
+		}
+		for _, r := range *rs {
+			switch x := r.(type) {
+			case *ssa.DebugRef, *ssa.UnOp:
+			case *ssa.Store:
+				if x.Addr != v {
+					return false
+				}
+			case *ssa.FieldAddr:
+				if !interiorOK(x, depth+1) {
+					return false
+				}
+			case *ssa.IndexAddr:
+				if x.X != v || !interiorOK(x, depth+1) {
+					return false
+				}
+			default:
+				return false
+			}
+		}
+		return true
+	}
+	for _, r := range *refs {
+		switch x := r.(type) {
+		case *ssa.DebugRef, *ssa.UnOp, *ssa.Return:
+		case *ssa.Store:
+			if x.Addr != ssa.Value(al) {
+				return false
+			}
+		case *ssa.FieldAddr:
+			if !interiorOK(x, 0) {
+				return false
+			}
+		default:
+			return false
+		}
+	}
+	return true
+}
